@@ -189,14 +189,15 @@ def plans(rng, quick):
                 if not ok(prog, app, mode, fb):
                     continue
                 fam.append(line(variant[0], variant[1], app, mode, fb, prog, "chunk:%d:2" % (29 if quick else 7), nh=0, nc=0))
-    # E: the two named input classes (kept apart so that they cannot hide anything else)
-    fam.append(line("scgi", 0, "async", "async", 1, "W5,S2,W1", "all", nh=0, nc=0))
-    fam.append(line("http11", 1, "async", "async", 1, "W1,S0", "chunk:29:2", nh=0, nc=0))
-    fam.append(line("http11", 1, "async", "async", 1, "W1,A,Z,A", "all", nh=0, nc=0))
-    fam.append(line("fcgi", 1, "sync", "nogzip", 1, "W1,F,Z,F,F", "all", nh=0, nc=0))
     # shards: interleave so that every shard has a similar mix
     nshard = 6 if quick else 12
     shards = [[] for _ in range(nshard)]
     for i, f in enumerate(fam):
         shards[i % nshard].append(f)
+    # E: the two named input classes, in a shard of their own so that they cannot hide anything else
+    shards.append([line("scgi", 0, "async", "async", 1, "W5,S2,W1", "all", nh=0, nc=0),
+                   line("http11", 1, "async", "async", 1, "W1,S0", "chunk:29:2", nh=0, nc=0),
+                   line("http11", 1, "async", "async", 1, "W1,A,Z,A", "all", nh=0, nc=0),
+                   line("fcgi", 1, "sync", "nogzip", 1, "W1,F,Z,F,F", "all", nh=0, nc=0),
+                   line("scgi", 0, "sync", "nogzip", 1, "W5,F,W2", "all", nh=1, nc=1)])
     return shards
